@@ -113,6 +113,21 @@ fn check(prop: &'static str, tier: Tier) -> i32 {
         let (case, _, _, _) = gen_case(&plan, prop, seed, i);
         eval(&case)
     });
+    if agg.harness_panics > 0 {
+        let (i, m) = agg.first_harness_panic.clone().unwrap_or((0, String::new()));
+        println!(
+            "harness error: {} run(s) panicked in the harness itself, outside the simulated execution (first: run {}: {}); nothing this batch reports can be believed",
+            agg.harness_panics, i, m
+        );
+        return 2;
+    }
+    if agg.evaluations != total {
+        println!(
+            "harness error: {} of {} planned runs were evaluated (worker threads lost their results); nothing this batch reports can be believed",
+            agg.evaluations, total
+        );
+        return 2;
+    }
     let known = load_known();
     let mut known_lines: Vec<String> = Vec::new();
     let mut unknown = 0u64;
